@@ -187,6 +187,12 @@ def deviation_corpus(tier):
             for dl, dt in terms.deviations(t):
                 if dl.split("@")[0] in keep:
                     out.append(("special:" + name + "|" + dl, dt))
+    # invisible operators (and the other characters with no visible form) INSIDE the text of a token, at every position
+    for cname, c in (("apply", "\u2061"), ("times", "\u2062"), ("comma", "\u2063"), ("plus", "\u2064"), ("zwsp", "\u200b"), ("wj", "\u2060")):
+        for kind in ("mi", "mn", "mo", "mtext", "ms"):
+            base = {"mi": "ab", "mn": "12", "mo": "<=", "mtext": "ab", "ms": "ab"}[kind]
+            for pname, txt in (("first", c + base), ("mid", base[0] + c + base[1:]), ("last", base + c), ("mid2", base + c + base), ("only+1", base[0] + c), ("twice", base[0] + c + c + base[1:])):
+                out.append((f"token-text:{cname}:{kind}:{pname}", terms.row(terms.mi("x"), terms.mo("="), terms.T(kind, text=txt))))
     return out
 
 
